@@ -265,7 +265,8 @@ def gen_kw(rng, f):
 
 def fam_traditional(ctx, rng):
     import hvsrpy
-    f, amp = gen_set(rng)
+    nc, big = gen.maybe_large(rng, ctx, None, [500, 900, 1500], p_quick=0.01, p_thorough=0.01)   # hours of windows
+    f, amp = gen_set(rng, n_curves=nc) if big else gen_set(rng)
     kw = gen_kw(rng, f)
     hv = hvsrpy.HvsrTraditional(f, amp)
     r = judge_call(ctx, hv, kw, "first call")
